@@ -1,23 +1,159 @@
 package main
 
 import (
+	"flag"
 	"fmt"
 	"os"
-
-	"golang.org/x/tools/go/packages"
-	"golang.org/x/tools/go/ssa"
-	"golang.org/x/tools/go/ssa/ssautil"
+	"path/filepath"
+	"sort"
+	"strings"
 )
 
-func main() {
-	cfg := &packages.Config{Mode: packages.LoadAllSyntax, Dir: os.Args[1], BuildFlags: []string{"-tags=verif"}}
-	pkgs, err := packages.Load(cfg, ".")
-	if err != nil {
-		panic(err)
+var repoRoot = "/repo"
+var verifRoot = "/verif"
+
+var pkgDirs = []string{".", "state", "otel", "stores/sqlite", "stores/durablestream"}
+
+func sharedSpecFiles() []string {
+	fs, _ := filepath.Glob(filepath.Join(verifRoot, "contracts", "*.spec"))
+	sort.Strings(fs)
+	return fs
+}
+
+func specFilesFor(dir string) []string {
+	files := sharedSpecFiles()
+	p := filepath.Join(repoRoot, dir, "contracts_verif.go")
+	if _, err := os.Stat(p); err == nil {
+		files = append(files, p)
 	}
-	prog, spkgs := ssautil.AllPackages(pkgs, ssa.NaiveForm|ssa.GlobalDebug)
-	prog.Build()
-	for _, p := range spkgs {
-		fmt.Println(p)
+	return files
+}
+
+func main() {
+	if len(os.Args) < 2 {
+		fmt.Fprintln(os.Stderr, "usage: ebuverify check|func|list ...")
+		os.Exit(2)
+	}
+	if r := os.Getenv("EBU_REPO"); r != "" {
+		repoRoot = r
+	}
+	if r := os.Getenv("EBU_VERIF"); r != "" {
+		verifRoot = r
+	}
+	switch os.Args[1] {
+	case "func":
+		cmdFunc(os.Args[2:])
+	case "check":
+		os.Exit(cmdCheck(os.Args[2:]))
+	case "list":
+		cmdList()
+	case "selftest":
+		os.Exit(cmdSelftest(os.Args[2:]))
+	default:
+		fmt.Fprintln(os.Stderr, "unknown command", os.Args[1])
+		os.Exit(2)
+	}
+}
+
+func cmdFunc(args []string) {
+	fl := flag.NewFlagSet("func", flag.ExitOnError)
+	dir := fl.String("d", ".", "package dir relative to repo")
+	name := fl.String("f", "", "function name")
+	verbose := fl.Bool("v", false, "verbose")
+	timeout := fl.Int("t", 10, "solver timeout (s)")
+	all := fl.Bool("all", false, "run all solvers")
+	fl.Parse(args)
+	e, err := LoadPackage(filepath.Join(repoRoot, *dir), specFilesFor(*dir))
+	if err != nil {
+		fmt.Fprintln(os.Stderr, "load:", err)
+		os.Exit(2)
+	}
+	e.outDir, _ = os.MkdirTemp("", "ebuverify-func-")
+	e.timeoutS = *timeout
+	e.allSolvers = *all
+	names := []string{*name}
+	if *name == "" {
+		names = sortedKeys(e.spec.Funcs)
+	}
+	for _, n := range names {
+		fs := e.spec.Funcs[n]
+		if fs == nil || fs.Trusted || e.funcs[n] == nil {
+			if *name != "" {
+				fmt.Println("no such function or contract:", n)
+			}
+			continue
+		}
+		res, err := e.VerifyFunc(n)
+		if err != nil {
+			fmt.Println("ERROR", n, err)
+			continue
+		}
+		e.DischargeAll(res, res.Axioms, 16)
+		summarize(res, *verbose)
+	}
+	fmt.Println("queries in", e.outDir)
+}
+
+func summarize(res *UnitResult, verbose bool) {
+	byName := map[string][]*Oblig{}
+	var order []string
+	for _, o := range res.Obligs {
+		if _, ok := byName[o.Name]; !ok {
+			order = append(order, o.Name)
+		}
+		byName[o.Name] = append(byName[o.Name], o)
+	}
+	nfail := 0
+	for _, n := range order {
+		os := byName[n]
+		bad := 0
+		var worst *Oblig
+		for _, o := range os {
+			if o.Res.Verdict != "unsat" {
+				bad++
+				if worst == nil {
+					worst = o
+				}
+			}
+		}
+		status := "ok  "
+		if bad > 0 {
+			status = "FAIL"
+			nfail++
+		}
+		if verbose || bad > 0 {
+			fmt.Printf("  %s %-70s paths=%d failing=%d props=%v\n", status, n, len(os), bad, os[0].Props)
+			if worst != nil {
+				fmt.Printf("       %s [%s by %s] %s\n       at %s\n       trace %s\n", worst.Text, worst.Res.Verdict, worst.Res.Solver, fmt.Sprintf("query #%d", worst.Path), worst.Pos, strings.Join(tail(worst.Trace, 14), " "))
+			}
+		}
+	}
+	fmt.Printf("%s: %d obligations (%d path instances), %d failing, %d paths, unsupported=%d\n", res.Func, len(order), len(res.Obligs), nfail, res.Paths, len(res.Unsupported))
+	for _, m := range res.Unsupported {
+		fmt.Println("   UNSUPPORTED:", m)
+	}
+}
+
+func tail(s []string, n int) []string {
+	if len(s) > n {
+		return s[len(s)-n:]
+	}
+	return s
+}
+
+func cmdList() {
+	for _, d := range pkgDirs {
+		db := NewSpecDB()
+		for _, f := range specFilesFor(d) {
+			if err := db.LoadFile(f); err != nil {
+				fmt.Println("ERROR", err)
+			}
+		}
+		for _, n := range sortedKeys(db.Funcs) {
+			fs := db.Funcs[n]
+			if strings.HasPrefix(fs.Pos, filepath.Join(repoRoot, d)) {
+				fmt.Printf("%-22s %-45s props=%v\n", d, n, fs.Props)
+			}
+		}
 	}
 }
